@@ -162,7 +162,8 @@ CPrims ==
   \o CEnumTypes
   \o (IF Rich THEN CBitsTypesRich ELSE CBitsTypes)
   \o (IF Rich THEN COctsTypesRich ELSE COctsTypes)
-  \o (IF Codec = "oer" THEN <<CReal("B32"), CReal("B64")>> ELSE <<>>)
+  \o (IF Codec = "oer" THEN <<CReal("B32"), CReal("B64"),
+                              TEnum(<<It("a", 0), It("b", 1)>>, TRUE, <<It("c", 2), It("d", 300)>>)>> ELSE <<>>)
   \o (IF Rich THEN CShapesRich ELSE CShapes)
 
 \* representatives that are wrapped a second time
@@ -189,13 +190,13 @@ COutside ==
      Out(TSeq("SET", <<Mand("a", TBool), Mand("b", I(B(0), B(7)))>>, FALSE, <<>>), "SET"),
      Out(TOf("SETOF", TBool, Sz(0, 2, FALSE)), "SETOF"),
      Out(TOf("SEQOF", TBool, NoSz), "SEQOF-UNBOUNDED"), Out(TOf("SEQOF", TBool, SzMin(1)), "SEQOF-UNBOUNDED"),
-     Out(TOf("SEQOF", TBool, Sz(0, 2, TRUE)), "SIZE-EXTENSIBLE"),
-     Out(TEnum(<<It("a", 0), It("b", 1)>>, TRUE, <<It("c", 2)>>), "ENUM-ADDITIONS"),
-     Out(TChoice(<<Alt("a", TBool)>>, TRUE, <<Alt("b", I(B(0), B(7)))>>), "CHOICE-ADDITIONS") >>
+     Out(TOf("SEQOF", TBool, Sz(0, 2, TRUE)), "SIZE-EXTENSIBLE") >>
   \o (IF Codec = "uper"
       THEN <<Out(CReal("B32"), "REAL"), Out(CReal("B64"), "REAL"),
+             Out(TEnum(<<It("a", 0), It("b", 1)>>, TRUE, <<It("c", 2)>>), "ENUM-ADDITIONS"),
+             Out(TChoice(<<Alt("a", TBool)>>, TRUE, <<Alt("b", I(B(0), B(7)))>>), "CHOICE-ADDITIONS"),
              Out(TSeq("SEQ", <<Mand("a", TBool)>>, TRUE, <<Add1(Mand("b", I(B(0), B(3))))>>), "SEQ-ADDITIONS")>>
-      ELSE <<Out(TSeq("SEQ", <<Mand("a", TBool)>>, TRUE, <<AddG(<<Mand("b", TBool), Opt("c", TBool)>>)>>), "SEQ-ADDITION-GROUP")>>)
+      ELSE <<>>)
 
 RecEnv == [tagdef |-> "A", extimp |-> FALSE,
            types |-> [x \in {"Rec"} |-> TSeq("SEQ", <<Mand("x", TBool), Opt("next", TRef("Rec"))>>, FALSE, <<>>)]]
@@ -289,7 +290,8 @@ CWrapsIn(e, t) ==
   \o (IF Defaultable(e, t) THEN <<TSeq("SEQ", <<Def("x", t, DefValue(e, t)), Post>>, FALSE, <<>>)>> ELSE <<>>)
   \o (IF Codec = "oer"
       THEN << TSeq("SEQ", <<Pre>>, TRUE, <<Add1(Mand("x", t)), Add1(Opt("y", TBool))>>),
-              TSeq("SEQ", <<Pre, Opt("o", I(B(0), B(255)))>>, TRUE, <<Add1(Mand("w", TBool)), Add1(Mand("x", t))>>) >>
+              TSeq("SEQ", <<Pre, Opt("o", I(B(0), B(255)))>>, TRUE, <<Add1(Mand("w", TBool)), Add1(Mand("x", t))>>),
+              TChoice(<<Alt("b", TBool)>>, TRUE, <<Alt("x", t)>>) >>
       ELSE <<>>)
 
 \* around a type outside the subset: it must be refused wherever it occurs
